@@ -1660,12 +1660,12 @@ func ruleNoMemoryTipUnderUpdate(c *report.Ctx, withPushes bool) {
 		}
 		sort.Slice(fs, func(i, j int) bool { return sk(fs[i]) < sk(fs[j]) })
 		for _, f := range fs {
-			for _, pn := range []string{"PushRemove", "PushImport"} {
-				if pf := p.Fn(pkgWallet, "WalletTaskChan", pn); pf != nil && withPushes {
-					for _, ps := range calls(f, pf) {
-						bad = true
-						c.Fail(sk(s.Closure)+"~>"+sk(f)+":"+pn, "a background task is queued from inside the write transaction started by "+sk(s.Caller)+": when the commit fails the caller reports the failure but the worker carries the task out anyway (a wallet whose removal was reported failed is deleted)", posOf(c, ps), p.Witness(parent, f)...)
-					}
+			if withPushes {
+				for _, tp := range taskPushes(c, f) {
+					bad = true
+					pn := map[string]string{"import": "PushImport", "remove": "PushRemove", "?": "Push"}[tp.Kind]
+					ps := tp.Site
+					c.Fail(sk(s.Closure)+"~>"+sk(f)+":"+pn, "a background task is queued from inside the write transaction started by "+sk(s.Caller)+": when the commit fails the caller reports the failure but the worker carries the task out anyway (a wallet whose removal was reported failed is deleted)", posOf(c, ps), p.Witness(parent, f)...)
 				}
 			}
 			for _, st := range fieldStores(f, nh, "bestBlock") {
@@ -2380,13 +2380,12 @@ func ruleImportRetryOverride(c *report.Ctx) {
 	c.Rule("import-retry-override", "in worker(), an import round that returned an error is treated as finished only under equality with a named unrecoverable sentinel; every other error (reorg during the round, transient read or commit error) leaves fin as reported, so the task is queued again", 1)
 	w := fn(c, pkgWallet, "", "worker")
 	ai := fn(c, pkgWallet, "NtfnsHandler", "asyncImport")
-	push := fn(c, pkgWallet, "WalletTaskChan", "PushImport")
-	if w == nil || ai == nil || push == nil {
+	if w == nil || ai == nil {
 		return
 	}
 	n := 0
 	for _, f := range append([]*ssa.Function{w}, closuresOf(p, w)...) {
-		for _, s := range calls(f, push) {
+		for _, s := range pushSites(c, f, "import") {
 			// the guard !fin: fin = phi(asyncImport#0 | true …)
 			for _, a := range p.GuardsOf(s) {
 				if a.Op != token.ILLEGAL || a.Truth {
@@ -2407,6 +2406,21 @@ func ruleImportRetryOverride(c *report.Ctx) {
 					gs := p.Guards(pred)
 					if ea := edgeAtoms(p, pred, ph.Block()); ea != nil {
 						gs = append(gs, *ea)
+					}
+					// a verdict merged over the kinds of task (`done := run(task)`): only the ways of an import are ours
+					if io := p.Obj(pkgWallet, "WalletTaskImport"); io != nil && an.AnyAtom(gs, func(g an.Atom) bool {
+						if g.X == nil || g.Y == nil || !strings.HasSuffix(p.Desc(g.X), "taskType") {
+							return false
+						}
+						k := foldConst(g.Y, 0)
+						if k == nil {
+							return false
+						}
+						isImport := k.ExactString() == constString(io)
+						return (g.Op == token.EQL && !isImport) || (g.Op == token.NEQ && isImport)
+					}) {
+						n--
+						continue
 					}
 					okEq := an.AnyAtom(gs, func(g an.Atom) bool {
 						if g.Op != token.EQL {
